@@ -101,7 +101,7 @@ def minRow (p : Row → Bool) : List Row → Option Row
 structure Srv where
   st : St := {}
   last : Option Nat := none    -- `last_response` (-1 = none)
-deriving Repr
+deriving DecidableEq, Repr
 
 def matchesQ (st : St) (req : Bytes) (r : Row) : Bool :=
   r.selected && r.state == st && r.req == req
@@ -242,7 +242,7 @@ structure DbRow where
   state : JObj             -- top-level keys of the `state` column
   req : Bytes
   resp : Option Bytes
-deriving Repr
+deriving DecidableEq, Repr
 
 /-- the row as a server in a plain `ECUState` sees it (`state_match_keywise`: matching key by key against the server's
     two keys is equality with the decoded state; a state object that does not decode matches no server state) -/
